@@ -117,6 +117,14 @@ def main():
         mt_iso = datetime.datetime.utcfromtimestamp(mt_ms / 1000).strftime("%Y-%m-%dT%H:%M:%S.000Z")
         m = plain_market(rng, 1, 1, False, nupd, T0, None, sts, mt_iso, ip_from)
         m["img"] = False          # historic-file style: the stream cache (and the filter's state) persists across lines
+        mts = [mt_ms] * nupd
+        if rng.random() < 0.5:
+            # the start is put back / brought forward by a later market definition (a rescheduled race)
+            k0 = rng.randrange(1, nupd)
+            mt2 = mt_ms + rng.choice([-600000, -60000, -5000, 5000, 60000, 600000])
+            for k in range(k0, nupd):
+                mts[k] = mt2
+                m["updates"][k]["market_time"] = datetime.datetime.utcfromtimestamp(mt2 / 1000).strftime("%Y-%m-%dT%H:%M:%S.000Z")
         lk = {}
         r = rng.random()
         if r < 0.3:
@@ -127,13 +135,13 @@ def main():
             lk["max_inplay_seconds"] = rng.choice([0, 1, 5, 60])
         sc = base_scenario([m])
         sc["strategies"][0]["listener_kwargs"] = lk
-        fsc.append((sc, lk, mt_ms))
+        fsc.append((sc, lk, mts))
     fouts = run_impl_parallel("simlib", [{"scenarios": [simgen.to_impl(s[0]) for s in ch], "observe": "calls"} for ch in chunked(fsc, 30)])
     fimpl = [r for o in fouts for r in o["out"]]
     frows = []
-    for (sc, lk, mt_ms), io in zip(fsc, fimpl):
+    for (sc, lk, mts), io in zip(fsc, fimpl):
         lo = "{| lo_inplay := %s; lo_seconds_to_start := %s; lo_max_inplay := %s |}" % (copt(lk.get("inplay"), cb), copt(lk.get("seconds_to_start")), copt(lk.get("max_inplay_seconds")))
-        us = cl("(mk_u %s %s %s %s)" % (z(u["pt"]), cb(u["status"] == "OPEN"), cb(u["inplay"]), z(mt_ms)) for u in sc["markets"][0]["updates"])
+        us = cl("(mk_u %s %s %s %s)" % (z(u["pt"]), cb(u["status"] == "OPEN"), cb(u["inplay"]), z(mt_k)) for u, mt_k in zip(sc["markets"][0]["updates"], mts))
         frows.append("(%s, %s, %s)" % (lo, us, zl(pt for _, pt in delivered_impl(io))))
     fbad = []
     for k, o in enumerate(coq_eval("c14fil", HDR, ["Definition cases := %s.\nEval vm_compute in bad_idx filter_ok cases.\n" % cl(ch) for ch in chunked(frows, 100)])):
